@@ -571,7 +571,8 @@ class Session:
                 # follow-ups the real code performs inside the same run: the handler's cleanup runs at once
                 # (the slot is freed at once; the QuitGame on the agent's behalf queues behind messages already
                 # forwarded - so both placements are tried by the caller)
-                pos = 0 if front else len(queue)
+                # `front`: True = at once, False = behind everything queued, a number k = behind the next k queued events
+                pos = 0 if front is True else (len(queue) if front is False else min(int(front), len(queue)))
                 if o["k"] == "lost":
                     queue.insert(pos, {"t": "leave", "c": o["c"], "o": None})
                 elif o["k"] == "reply" and o["c"] in pending:
@@ -681,7 +682,12 @@ class Session:
         orders = list(itertools.permutations(range(len(groups)))) if len(groups) > 1 else [tuple(range(len(groups)))]
         # events of ONE connection keep the order in which that connection sent them
         orders = [o for o in orders if all(o.index(i) < o.index(j) for i in range(len(groups)) for j in range(i + 1, len(groups)) if group_conn[i] == group_conn[j])]
-        orders = [(o, True) for o in orders] + ([(o, False) for o in orders] if len(groups) > 1 else [])
+        base_orders = orders
+        orders = [(o, True) for o in base_orders] + ([(o, False) for o in base_orders] if len(groups) > 1 else [])
+        if len(groups) > 2 and (self.pending_leave or any((w.writer.fail_write or w.writer.fail_drain or w.writer.lost_exc is not None) for w in self.sim.conns.values())):
+            # a departure produced INSIDE the burst (failed write, connection loss noticed after the reply) may be processed
+            # behind any number of the messages already queued: the placements in between
+            orders += [(o, k) for k in range(1, len(groups) - 1) for o in base_orders]
         if len(orders) > 1:
             self.drv.ask({"op": "snapshot"})
         prev_state = self.model_state
